@@ -1,12 +1,12 @@
 package main
 
 import (
-	"runtime"
 	"bytes"
 	"context"
 	"encoding/binary"
 	"fmt"
 	"math/rand"
+	"runtime"
 	"strings"
 	"sync"
 	"sync/atomic"
